@@ -93,7 +93,7 @@ def event_callback_contract(it, fn, args, kwargs):
 def _msg_fields(it, msg):
     if isinstance(msg, Obj):
         snap = {k: msg.fields.get(k) for k in ("node_id", "child_id", "type", "ack", "sub_type", "payload")}
-        snap["world"] = it.world.snapshot("at-callback") if it.world is not None else None
+        snap["sensors"] = sensors_ref(it.world.snapshot("at-callback")) if it.world is not None else None
         return snap
     return {"raw": msg}
 
@@ -133,16 +133,36 @@ def make_gateway(h, version="1.4", flavour="sync", persistence="sym", callback=T
         started=MapRef(w, "ota.started", TupleDict("node", ("int", "int")), ()),
     )
     tasks.fields["ota"] = ota
+    pers = Obj(P.Persistence, name="persistence")
+    pers.fields.update(_sensors=sens, need_save=ctx.fresh("bool", "need_save"), persistence_file="mysensors.json", persistence_bak="mysensors.json.bak")
+    ctx.ghost["persistence_obj"] = pers
     if persistence == "sym":
-        pk = ctx.choose([z3.BoolVal(True), z3.BoolVal(True)], labels=["persistence-on", "persistence-off"], site="setup")
-        persistence = pk == 0
-    if persistence:
-        pers = Obj(P.Persistence, name="persistence")
-        pers.fields.update(_sensors=sens, need_save=ctx.fresh("bool", "need_save"), persistence_file="mysensors.json", persistence_bak="mysensors.json.bak")
+        from pyvc.values import LazyField
+
+        def pick(it2, _p=pers):
+            pk = it2.ctx.choose([z3.BoolVal(True), z3.BoolVal(True)], labels=["persistence-on", "persistence-off"], site="tasks.persistence")
+            it2.ctx.ghost["persistence_on"] = pk == 0
+            return _p if pk == 0 else None
+
+        tasks.fields["persistence"] = LazyField(pick)
+    elif persistence:
         tasks.fields["persistence"] = pers
+        ctx.ghost["persistence_on"] = True
     else:
         tasks.fields["persistence"] = None
+        ctx.ghost["persistence_on"] = False
     tasks.fields["transport"] = Obj(object, name="transport")
-    ctx.ghost["sent"] = SeqVal("str", z3.Empty(z3.SeqSort(z3.StringSort())), "list")
+    from pyvc.core import QSTR
+
+    from pyvc.core import INT, STR
+    from pyvc.loops import GhostArr
+
+    # ghost: how many `set` commands were handed to the transport per (child, value type), and with what payload
+    ctx.ghost["setcount"] = GhostArr(z3.K(INT, z3.K(INT, z3.IntVal(0))), ("child", "vt"), "int")
+    ctx.ghost["setpay"] = GhostArr(ctx.fresh_term(z3.ArraySort(INT, z3.ArraySort(INT, STR)), "setpay"), ("child", "vt"), "str")
+    ctx.ghost["events"] = []
+    ctx.ghost["localtime"] = 0
+    ctx.ghost["new_id"] = None
+    ctx.ghost["sent"] = SeqVal("str", z3.Empty(QSTR), "list")
     f["tasks"] = tasks
     return gw
